@@ -10,8 +10,8 @@ static uint64_t g_cmp_calls = 0;         // calls made by the library (g_monitor
 static uint64_t g_cmp_calls_all = 0;
 static bool g_cmp_prov_reported = false;
 
-template <int K>
-inline int key_of(const Tracked<K> &e) { e.check_live("read(comparator)"); return e.key; }
+template <int K, int P>
+inline int key_of(const Tracked<K, P> &e) { e.check_live("read(comparator)"); return e.key; }
 inline int key_of(const TC4 &e) { return e.key; }
 inline int key_of(const TC1 &e) { return e.b & 7; }
 inline int key_of(const TC8 &e) { return e.key; }
@@ -24,8 +24,8 @@ inline int key_of(const Proto &p) { return p.key; }  // as if converted first: w
 inline int key_of(int k) { return k; }
 inline int key_of(double d) { return static_cast<int>(d); }
 
-template <int K>
-inline unsigned pay_of(const Tracked<K> &e) { return e.pay; }
+template <int K, int P>
+inline unsigned pay_of(const Tracked<K, P> &e) { return e.pay; }
 inline unsigned pay_of(const TC4 &e) { return e.pay; }
 inline unsigned pay_of(const TC1 &e) { return static_cast<unsigned>(e.b >> 3); }
 inline unsigned pay_of(const TC8 &e) { return e.pay; }
